@@ -47,7 +47,7 @@ prop('C02',
            'too few names (literal, and with the missing names hidden behind the capacity of the slice passed), one bad component inside an N-ary request, container type parameter *S (by name and by type), a focus that lies behind an embedded pointer, names/types that occur at several depths, '
            'and a Reflector handed S by value, **S, nil, *A, unsafe.Pointer, uintptr, a pointer to a twin struct type with the identical layout, a pointer to an unrelated struct; oracle: the model verdict computed from the spec alone: "panic" = the derivation must panic; '
            '"focus" = must not panic and pass the C01 image check at the model focus; "panic or correct" (focus behind a pointer) = either panics at derivation or passes the image check through the pointer with the pointee observed too; wrong dynamic arguments must panic and leave the arena byte-identical; '
-           ' Second tier (E2): struct shapes that exist only at run time (reflect.StructOf: 1..6 fields per struct, value/pointer embedding to depth 4, unexported names, tags) unfolded by the real unfold through the verif-tagged hook hseq.VerifUnfold and focused with optics.NewLens/NewReflector[Blob, A] for A over a static universe of 47 types; oracle: reflect\'s own addressing (FieldByIndex) for listing offsets and field memory, every OTHER focus type of the universe must be refused for the focused field, byte image of a canary-guarded arena for Put. the same refusals are requested through ForShapeN (unknown name, near-miss type, too few names literally and behind the capacity) and BiMapS/B/I/F (wrong stored type of the same class, unknown name); field types include twins that print alike but differ (same package name, other import path: *ut.Pt vs *altut.Pt, []ut.MyStr); non-trivial = verdict panic / panic-or-correct, or a focus chosen among >= 2 candidates; distinct = different (shape, request)'),
+           ' Second tier (E2): struct shapes that exist only at run time (reflect.StructOf: 1..6 fields per struct, value/pointer embedding to depth 4, unexported names, tags) unfolded by the real unfold through the verif-tagged hook hseq.VerifUnfold and focused with optics.NewLens/NewReflector[Blob, A] for A over a static universe of 47 types; oracle: reflect\'s own addressing (FieldByIndex) for listing offsets and field memory, every OTHER focus type of the universe must be refused for the focused field, byte image of a canary-guarded arena for Put. the same refusals are requested through ForShapeN (unknown name, near-miss type, too few names literally and behind the capacity) and BiMapS/B/I/F (wrong stored type of the same class, unknown name); field types include twins that print alike but differ (same package name, other import path: *ut.Pt vs *altut.Pt, []ut.MyStr); dynamic arguments of Gett/Putt include composites of the container type built by reflection ([]S, [1]S, *[1]S, map[string]S, chan S, []*S, func() *S); a function-local type declaration named like the package-level struct type of the field is requested by name and by type; non-trivial = verdict panic / panic-or-correct, or a focus chosen among >= 2 candidates; distinct = different (shape, request)'),
      assumptions=E1_ASSUME,
      parts=[
          dict(name='shapes', engine='E1', kind='gen', gen='lens', pkg='gen', test='TestShapes',
@@ -87,7 +87,7 @@ prop('C04',
            'Getter and Setter with drawn conversions; ForShape2..9 by name over distinct leaf fields of mixed types; NewLensM over map[string]int and a named map type with keys present/absent; Iso and Morphism between each shape and the next one over lists of 1..6 isos with nil entries and repeated entries; '
            'oracle: byte images of the canary-guarded arenas of BOTH structures predicted with plain selector assignments: Join obeys the three laws at &p.a.b.c and nothing else changes (padding inside the intermediate structs is exempt); BiMap*: stored value = cmap(b), Get = fmap(field), laws on the converted value; '
            'Getter never writes; Setter writes f(b) and reads the zero value; ShapeN Get = the N selector reads, Put = exactly N selector writes in positional order; map lens: model map, same identity; Forward: target foci := source foci, Inverse after scrambling the source foci restores them, every other byte of both arenas unchanged; '
-           'one Join lens value is also used by two goroutines at once on two different structures (300 Put/Get rounds each, images checked every round); two morphisms extending ONE base morphism built from a slice with spare capacity are both checked after the second was built; non-trivial = Join depth >= 3 or through a promoted field, a view type different from the field type, ShapeN over >= 2 different types, Morphism with >= 2 distinct isos and >= 1 nil; distinct = different (shapes, request)'),
+           'one Join lens value is also used by two goroutines at once on two different structures (300 Put/Get rounds each, images checked every round); two morphisms extending ONE base morphism built from a slice with spare capacity are both checked after the second was built; the isos of a Morphism are passed as a slice the program keeps, compares afterwards and uses for a second Morphism; every shape has a field of each conversion class and one BiMapS/B/I/F request per class; slice-typed views are also put through nil / empty / empty-with-capacity; non-trivial = Join depth >= 3 or through a promoted field, a view type different from the field type, ShapeN over >= 2 different types, Morphism with >= 2 distinct isos and >= 1 nil; distinct = different (shapes, request)'),
      assumptions=E1_ASSUME + ['ShapeN never names the same field twice; distinct isos of a Morphism have distinct, non-overlapping target foci; nil maps are not passed to a map lens',
                               'values written through converting lenses are compared semantically (a conversion may allocate), everything around them byte by byte'],
      parts=[
@@ -138,7 +138,7 @@ prop('C06',
            'for every stage, mode and capacity {0,1,3}; oracle: no process death (journal), delivered prefix of the uncancelled result at every receive (Fold/ForEach/Void: nothing or the full result), '
            'uncancelled runs: every port closes under a fair consumer and no stage goroutine remains (goroutine census of the bubble; Throttling may keep one pacer); after cancel + close of all inputs with NO further receive: '
            'census empty after a virtual horizon, then every port drains to "closed"; bubble exit without deadlock; '
-           '(leak verdicts come from the bubble itself: it cannot end while a goroutine of the stage is blocked; the census is taken for Throttling and to describe a leak); enumerated scenarios are repeated to sample select tie-breaks; stages are also created on an already cancelled context, and a sixth of the scenarios run an independent never-cancelled second instance alongside which must complete as if alone; non-trivial = cancel while a producer is blocked / buffer full, or cancel inside a batch; distinct = different canonical scenario'),
+           '(leak verdicts come from the bubble itself: it cannot end while a goroutine of the stage is blocked; the census is taken for Throttling and to describe a leak); enumerated scenarios are repeated to sample select tie-breaks; stages are also created on an already cancelled context, and a sixth of the scenarios run an independent never-cancelled second instance alongside which must complete as if alone; a quarter of the Filter/TakeWhile/Partition scenarios use Lift/Try predicates that return errors (liveness, leak and nothing-invented clauses only); non-trivial = cancel while a producer is blocked / buffer full, or cancel inside a batch; distinct = different canonical scenario'),
      assumptions=E3_ASSUME + ['goroutines are attributed to the stage by frames in github.com/fogfish/golem/pipe/v2 within the current bubble'],
      parts=[
          dict(name='cancel-enum', engine='E3', pkg='pipes', test='TestC06Cancel', kind='plain',
@@ -159,11 +159,13 @@ prop('C07',
            '(values first, errors first, alternating, stepwise, fair only); generated: inputs up to 40 elements with duplicates, random failing value sets, random scripts, error values that wrap '
            'context.Canceled / DeadlineExceeded / io.EOF, StdErr wrapping; oracle: exact value and error sequences per mode, both channels closed, call count = k+1 and elements removed <= k+1 under fail-fast, '
            'fail-fast closes without waiting for further input, no stuck state under a fair consumer that reads the error channel; '
-           'error values also include a slice-typed (non-comparable) error type; every enumerated Map/FMap mask is also run with the StdErr reader of the library itself as the error reader; a sixth of the Map/FMap scenarios run an independent second instance alongside (own failing set); non-trivial = at least one failing and one succeeding element with a success after the first failure; distinct = different canonical scenario'),
+           'error values also include a slice-typed (non-comparable) error type; every enumerated Map/FMap mask is also run with the StdErr reader of the library itself as the error reader; a sixth of the Map/FMap scenarios run an independent second instance alongside (own failing set); a separate part hands ONE morphism value (pipe.Lift / Try / LiftF / TryF and the fork constructors) to two or three stages in a row, the first of which usually fails: each stage behaves as documented for its own input (values, errors, call counts); non-trivial = at least one failing and one succeeding element with a success after the first failure; distinct = different canonical scenario'),
      assumptions=E3_ASSUME + ['the error channel is always eventually read (proviso of the statement)', 'a failing arrow emits nothing before failing'],
      parts=[
          dict(name='enum', engine='E3', pkg='pipes', test='TestC07Enum', kind='plain',
               quick=dict(shards=8), thorough=dict(shards=16, timeout=3000)),
+         dict(name='reuse', engine='E3', pkg='pipes', test='TestC07Reuse',
+              quick=dict(cases=4000, shards=1), thorough=dict(cases=80000, shards=4, timeout=3000)),
          dict(name='rapid', engine='E3', pkg='pipes', test='TestC07',
               quick=dict(cases=10000, shards=8), thorough=dict(cases=800000, shards=16, timeout=3000)),
      ],
